@@ -539,7 +539,9 @@ def ua_leak(ctx):
                 # another constructor of Desync: the raw pointer goes straight into the `data` field of the Desync it returns (and nowhere else)
                 for b2 in fn.blocks:
                     for s2 in b2['stmts']:
-                        if s2['k'] == 'assign' and s2['rv']['k'] == 'agg' and s2['rv'].get('adt') == 'desync::Desync' and not s2['pl']['p'] and s2['pl']['l'] == 0:
+                        # (the aggregate may be built in a private helper that was inlined: then it lands in a temporary first)
+                        if s2['k'] == 'assign' and s2['rv']['k'] == 'agg' and s2['rv'].get('adt') == 'desync::Desync' and not s2['pl']['p'] \
+                                and (s2['pl']['l'] == 0 or clean_ty(fn.local_ty(0) or '').startswith('desync::Desync<')):
                             comps = [render(fn.expr_of_operand(o_)) for o_ in s2['rv'].get('ops', [])]
                             if sum(1 for c_ in comps if c_.startswith('into_raw(')) == 1:
                                 why = 'the payload box of a constructor (`%s` builds the Desync it returns around it); freed exactly once in Desync::drop (UA-free)' % short(fn.name)
